@@ -175,6 +175,7 @@ Events(s) ==
   \cup {<<k, w, 0>> : k \in {"restart", "reload", "stopstart"}, w \in {v \in s.ws : s.np[v] > 0}}
   \cup {<<"incr", w, 0>> : w \in {v \in s.ws : s.np[v] < MaxProcs}}
   \cup {<<"decr", w, 0>> : w \in {v \in s.ws : s.np[v] > 0}}
+  \cup {<<"rcfg", "ws", 0>>}          \* reloadconfig of the unchanged file: nothing moves, no socket is touched
 
 Apply(s, ev) ==
   LET k == ev[1]
@@ -185,6 +186,7 @@ Apply(s, ev) ==
        [] k = "stopstart" -> SpawnN(Kill(s, Live(s, w)), w, s.np[w])
        [] k = "reload"    -> \* graceful: numprocesses new workers first, then the surplus (the oldest) goes
                              Kill(SpawnN(s, w, s.np[w]), Live(s, w))
+       [] k = "rcfg"      -> s
        [] k = "incr"      -> SpawnN([s EXCEPT !.np = [@ EXCEPT ![w] = @ + 1]], w, 1)
        [] k = "decr"      -> LET s1 == [s EXCEPT !.np = [@ EXCEPT ![w] = @ - 1]]
                              IN  Kill(s1, {Nth(s1, w, 1)})                  \* manage_processes: oldest first
